@@ -87,10 +87,11 @@ func b01(b bool) string {
 // known defects found with this model: switch = as-found (false) / repaired (true), probed on the real code
 type cfg struct {
 	er, jol, wrap bool
+	u16           bool // the Joliet name decoder is UTF-16 (iso-joliet-nonbmp-name repaired)
 }
 
 func (g cfg) args() []string {
-	return []string{"er=" + b01(g.er), "jol=" + b01(g.jol)}
+	return []string{"er=" + b01(g.er), "jol=" + b01(g.jol), "u16=" + b01(g.u16)}
 }
 
 // knownTag maps a panic to the listed finding that explains it (innermost library function + error class).
